@@ -8,7 +8,7 @@ ASSUMPTIONS = ["formula vocabulary of Exec/Model.v (integers/None, calls, refere
 
 
 def run(tier, seed, rng):
-    return E.run_exec_property("C06", tier, rng, 150, 3000, {'alt': [(0.4, {'p_raise': 0.15, 'p_try': 0.4})], 'p_derived': 0.3, 'p_raise': 0.02}, {'eval': 6, 'setv': 4, 'clearat': 2, 'clear': 1, 'clearall': 1, 'setref': 1, 'recalc': 1, 'scn_ref': 2, 'scn_recalc': 1}, (10, 30), ORACLES,
+    return E.run_exec_property("C06", tier, rng, 150, 3000, {'alt': [(0.4, {'p_raise': 0.15, 'p_try': 0.4})], 'p_derived': 0.3, 'p_raise': 0.02}, {'eval': 6, 'setv': 4, 'clearat': 2, 'clear': 1, 'clearall': 1, 'setref': 1, 'recalc': 1, 'scn_ref': 2, 'scn_recalc': 1, 'scn_unc2': 1}, (10, 30), ORACLES,
         'worlds as C01; histories of evaluations, value assignments/overwrites, clear_at, clear, clear_all, reference changes, both settings of set_recalc' + "; non-trivial = a value edit that discarded at least one dependent; distinct by JSON of the case",
         lambda c, r: any(op[0] in ('setv','clearat') and k and len(r['obs'][k-1]['data'])>len([d for d in r['obs'][k]['data']]) for k,op in enumerate(c['ops'])), diff=None)
 
